@@ -1,5 +1,5 @@
 (* C05 — Clock edges are atomic: every sequential block sees pre-edge values.
-   Statements only; proofs are in Proofs/C05/{ListAux,Edge,Split,Examples}.v.
+   Statements only; proofs are in Proofs/C05/{ListAux,Edge,Split,Examples,Sorted}.v (and Proofs/C04/Compose.v).
    All theorems are about Model/SimKernel.v (the simulator kernel: Simulator._clk_cycle / clk, Wire.prepare /
    settleAll) for EVERY design: arbitrary leaf functions, arbitrary widths, arbitrary number of leaves and
    drivers, arbitrary pre-edge state.  The meaning (snapshot-then-apply reference, re-scheduling, side conditions)
